@@ -37,6 +37,26 @@ func (t *vTpl) all() []*Session {
 	return append(out, t.pseudo...)
 }
 
+// Shape groups: which optional elements of the template are solver variables.
+// A check that must keep the number of structural shapes small (the
+// serialization round trip walks every element) varies one group at a time.
+const (
+	vgUserModes = 1 << iota
+	vgChanModes
+	vgMembership
+	vgInvites
+	vgConfigOpt
+	vgStatus
+	vgTimes
+)
+
+func vBit(group int, def bool) bool {
+	if verifParam("sym", 0xffff)&group != 0 {
+		return nondetBool()
+	}
+	return def
+}
+
 func vStr(L int) string {
 	s := nondetString(L)
 	verifAssume(verifIsASCII(s))
@@ -88,15 +108,15 @@ func vConfig(i *IRCServer, L int) {
 	cfg.MaxChannels = nondetU64()
 	cfg.Banned = make(map[string]string)
 	if verifParam("banned", 1) > 0 {
-		verifMapPutIf(cfg.Banned, vStr(L), vStr(L), nondetBool())
+		verifMapPutIf(cfg.Banned, vStr(L), vStr(L), vBit(vgConfigOpt, true))
 	}
 	if verifParam("cfgmaps", 0) == 0 || nondetBool() {
 		cfg.TrustedBridges = make(map[string]string)
-		verifMapPutIf(cfg.TrustedBridges, vStr(L), vStr(L), nondetBool())
+		verifMapPutIf(cfg.TrustedBridges, vStr(L), vStr(L), vBit(vgConfigOpt, true))
 	}
 	if verifParam("cfgmaps", 0) == 0 || nondetBool() {
 		cfg.WhitelistedOrigins = make(map[string]bool)
-		verifMapPutIf(cfg.WhitelistedOrigins, vStr(L), true, nondetBool())
+		verifMapPutIf(cfg.WhitelistedOrigins, vStr(L), true, vBit(vgConfigOpt, true))
 	}
 	i.Config = cfg
 }
@@ -121,20 +141,20 @@ func vClient(id uint64, status int, L int) *Session {
 	s.LastNonPing = vTime()
 	solved := vTime()
 	verifAssume(!solved.After(s.LastActivity))
-	s.LastSolvedCaptcha = verifIteT(nondetBool(), solved, time.Time{})
-	s.Created = nondetI64In(-(1 << 60), 1<<60)
+	s.LastSolvedCaptcha = verifIteT(vBit(vgTimes, true), solved, time.Time{})
+	s.Created = nondetI64In(1, 1<<60) // creation instants are positive unix nanoseconds
 	verifAssume(s.Created <= s.LastActivity.UnixNano())
 	s.lastClientMessageId = nondetU64()
 	s.throttlingExponent = int(nondetI64In(0, 40))
-	s.modes['i'] = nondetBool()
-	s.modes['G'] = nondetBool()
-	s.modes['r'] = nondetBool()
+	s.modes['i'] = vBit(vgUserModes, true)
+	s.modes['G'] = vBit(vgUserModes, false)
+	s.modes['r'] = vBit(vgUserModes, false)
 	verifAssume(verifImplies(s.Nick != "", IsValidNickname(s.Nick)))
 	switch status {
 	case 3:
-		s.loggedIn = nondetBool()
-		s.Operator = nondetBool()
-		s.modes['o'] = nondetBool()
+		s.loggedIn = vBit(vgStatus, true)
+		s.Operator = vBit(vgStatus, false)
+		s.modes['o'] = vBit(vgStatus, false)
 		verifAssume(verifImplies(s.loggedIn, verifAnd(s.Nick != "", s.Username != "")))
 		verifAssume(verifImplies(s.Operator, verifAnd(s.loggedIn, s.modes['o'])))
 	case 0:
@@ -150,7 +170,7 @@ func vClient(id uint64, status int, L int) *Session {
 		}
 	}
 	// updateIrcPrefix has run iff NICK or USER has been processed
-	pinit := verifOr(s.Nick != "", s.Username != "", nondetBool())
+	pinit := verifOr(s.Nick != "", s.Username != "", vBit(vgStatus, true))
 	s.ircPrefix = irc.Prefix{Name: s.Nick, User: s.Username, Host: verifIteS(pinit, vHost(id), "")}
 	return s
 }
@@ -200,7 +220,7 @@ func vBuild(role int) *vTpl {
 	if role == vRoleServices || verifParam("link", 0) > 0 {
 		l := vClient(0x100, 0, L)
 		l.Server = true
-		l.loggedIn = nondetBool()
+		l.loggedIn = vBit(vgStatus, false)
 		l.ircPrefix = irc.Prefix{Name: vNonEmpty(L)}
 		t.link = l
 		i.sessions[l.Id] = l
@@ -237,12 +257,12 @@ func vBuild(role int) *vTpl {
 			verifAssume(ChanToLower(o.name) != ChanToLower(ch.name))
 		}
 		for _, m := range "ntsikxr" {
-			ch.modes[m] = nondetBool()
+			ch.modes[m] = vBit(vgChanModes, m == 'n' || m == 't')
 		}
 		ch.key = vStr(L)
 		ch.topic = vStr(L)
 		ch.topicNick = vStr(L)
-		ch.topicTime = verifIteT(nondetBool(), vTime(), time.Time{})
+		ch.topicTime = verifIteT(vBit(vgTimes, true), vTime(), time.Time{})
 		nB := verifParam("bans", 1)
 		for b := 0; b < nB; b++ {
 			pat := vStr(L)
@@ -255,9 +275,9 @@ func vBuild(role int) *vTpl {
 		mrow := make([]bool, len(members))
 		orow := make([]bool, len(members))
 		for k, s := range members {
-			m := nondetBool()
-			op := nondetBool()
-			voice := nondetBool()
+			m := vBit(vgMembership, k == 0)
+			op := vBit(vgMembership, k == 0)
+			voice := vBit(vgMembership, false)
 			// only logged-in clients (and pseudo-clients) can be on a channel
 			verifAssume(verifImplies(m, s.Nick != ""))
 			if s.Id.Reply == 0 {
@@ -268,7 +288,7 @@ func vBuild(role int) *vTpl {
 			mrow[k], orow[k] = m, op
 			verifMapPutIf(ch.nicks, NickToLower(s.Nick), &[maxChanMemberStatus]bool{op, voice}, m)
 			verifMapPutIf(s.Channels, lc, true, m)
-			verifMapPutIf(s.invitedTo, lc, true, verifAnd(!m, nondetBool()))
+			verifMapPutIf(s.invitedTo, lc, true, verifAnd(!m, vBit(vgInvites, false)))
 		}
 		verifAssume(any)
 		t.member = append(t.member, mrow)
@@ -277,7 +297,7 @@ func vBuild(role int) *vTpl {
 		i.channels[lc] = ch
 	}
 	if verifParam("svsholds", 1) > 0 {
-		verifMapPutIf(i.svsholds, NickToLower(vNonEmpty(L)), svshold{added: vTime(), duration: time.Duration(nondetI64In(0, 1<<50)), reason: vStr(L)}, nondetBool())
+		verifMapPutIf(i.svsholds, NickToLower(vNonEmpty(L)), svshold{added: vTime(), duration: time.Duration(nondetI64In(0, 1<<50)), reason: vStr(L)}, vBit(vgConfigOpt, true))
 	}
 	i.lastProcessed = robust.Id{Id: nondetU64()}
 	return t
